@@ -7,7 +7,7 @@ import ast
 from ..core import Ctx, RuleResult, finding, short, walk_no_nested
 from ..model import AnalysisError, norm
 from ..mutants import Mut
-from ..rules import dim, inv, posbound, prog
+from ..rules import dim, fresh, inv, posbound, prog
 from ..rules.defuse import DefUse
 from ..rules.exc import ExcEngine
 from ..rules.util import callee_name, cfg_of, lin_str, linear, nodes_where
@@ -19,7 +19,8 @@ EXPLANATION = (
     "set_scrollpos stores int(position) and invalidates; (2) slice/translation pairing: render trims the canvas top by the very attribute (self._trim_top) that mouse_event adds to the row "
     "and get_scrollpos reports; (3) DIM/POSBOUND on scrollable.py, the ScrollBar's bottom part is the remainder maxrow - thumb_height - top_height and the bar width the remainder "
     "maxcol - child width; (4) forwarding: a scroll action is set only on paths where the child was not offered the key or returned it unhandled (return on `key is None` first); "
-    "(5) thumb geometry is computed only from queries made with the size the wrapped widget is drawn at (ow_size), never the ScrollBar's own size."
+    "(7) FRESHLIST: padding the visible slice never appends to the shard list of the wrapped widget's cached canvas (a taller first view would otherwise inflate the content the next, "
+    "lower view scrolls over); (5) thumb geometry is computed only from queries made with the size the wrapped widget is drawn at (ow_size), never the ScrollBar's own size."
 )
 NOT_DECIDED = "0 <= position <= total - height after every history as a value statement, thumb monotonicity, rounding of the thumb, wheel handling, relative-scroll estimates."
 ASSUMPTIONS = []
@@ -269,6 +270,7 @@ def run(ctx: Ctx):
         rule_scrollbar_parts(ctx),
         rule_forwarding(ctx),
         rule_query_size(ctx),
+        fresh.run_fresh(p, "C20.7", ["urwid.canvas"], floor=30),
         inv.run_inv(p, "C20.6", floor_classes=2, floor_nontrivial=1, exceptions=INV_EXCEPTIONS, only_classes={"Scrollable", "ScrollBar"}),
     ]
 
